@@ -10,7 +10,7 @@ SE2 = "oxmpl/src/base/spaces/se2_state_space.rs"
 SE3 = "oxmpl/src/base/spaces/se3_state_space.rs"
 SOURCES = [SRC, ANY, SE2, SE3]
 PRELUDE = ["core.rs", "spaces.rs"]
-SERVES = ["C13", "C09", "C14", "C11"]
+SERVES = ["C13", "C09", "C14", "C11", "C12"]
 FUNCTIONS = [SRC + "::CompoundStateSpace::" + f for f in ("new", "distance", "interpolate", "sample_uniform", "enforce_bounds", "satisfies_bounds", "get_longest_valid_segment_length")] + \
     [ANY + "::<T as AnyStateSpace>::" + f for f in ("distance_dyn", "interpolate_dyn", "enforce_bounds_dyn", "satisfies_bounds_dyn", "get_longest_valid_segment_length_dyn")] + \
     [f_ + "::" + t + "::" + f for f_, t in ((SE2, "SE2StateSpace"), (SE3, "SE3StateSpace")) for f in ("new", "distance", "interpolate", "enforce_bounds", "satisfies_bounds", "sample_uniform", "get_longest_valid_segment_length")]
